@@ -15,6 +15,7 @@ import (
 	"net"
 	"strconv"
 	"sync"
+	"sync/atomic"
 	"time"
 
 	"github.com/vipnode/vipnode/v2/jsonrpc2"
@@ -214,6 +215,7 @@ func runRPCFirst(args []string) {
 		fatal("%v", err)
 	}
 	log := &evlog{tr: tr, epoch: time.Now()}
+	var failed atomic.Value
 	for p := 0; p < pairs; p++ {
 		log.emit(J{"ev": "reset"})
 		p1, p2 := net.Pipe()
@@ -237,10 +239,13 @@ func runRPCFirst(args []string) {
 				tok := fmt.Sprintf("p%d.%d", p, c)
 				<-start
 				log.emit(J{"ev": "call", "ep": "A", "tok": tok})
-				ctx, cancel := context.WithTimeout(context.Background(), 20*time.Second)
+				ctx, cancel := context.WithTimeout(context.Background(), 8*time.Second)
 				var out string
 				err := a.Call(ctx, &out, "t_echo", tok, 0, false)
 				cancel()
+				if err != nil {
+					failed.Store(true)
+				}
 				log.emit(J{"ev": "ret", "ep": "A", "tok": tok, "val": out, "err": errText(err)})
 			}(c)
 		}
@@ -249,6 +254,9 @@ func runRPCFirst(args []string) {
 		log.emit(J{"ev": "end"})
 		p1.Close()
 		p2.Close()
+		if failed.Load() != nil {
+			break // one failing connection is enough to decide; do not wait out a time-out per connection
+		}
 	}
 	tr.close()
 	ioutil.WriteFile(statusFile, []byte("OK\n"), 0644)
